@@ -460,7 +460,10 @@ def bound_matches(ex, chk, v, d):
         return None
     got = const_value(b)
     if isinstance(want, float) or sym.is_float(b[1]):
-        return float(got) == float(want) or (got != got and want != want)
+        want = float(want)
+        if b[1] == 'f32':
+            want = sym.float_value('f32', sym.float_bits('f32', want))    # what the spelling denotes *as an f32*
+        return float(got) == want or (got != got and want != want)
     return got == want
 
 
@@ -687,11 +690,20 @@ SELF0 = ('field', ('deref', ('param', 1)), 0)
 OTHER0 = ('field', ('deref', ('param', 2)), 0)
 
 
+def strip_names(t):
+    """drop the name of named constants (`K` and `5` are the same value)"""
+    if not isinstance(t, tuple):
+        return t
+    if t and t[0] == 'const' and len(t) == 4:
+        return (t[0], t[1], t[2], None) if t[2] is not None else t
+    return tuple(strip_names(x) if isinstance(x, tuple) else x for x in t)
+
+
 def table(outs):
     """canonical, order-insensitive form of a list of outcomes"""
     rows = set()
     for o in outs:
-        rows.add((o.kind, tuple(o.conds), o.ret if o.kind == 'return' else None))
+        rows.add((o.kind, strip_names(tuple(o.conds)), strip_names(o.ret) if o.kind == 'return' else None))
     return rows
 
 
